@@ -98,6 +98,11 @@ pub struct WorldCfg {
     /// only C04 draws it (payloads cannot be delivered, so the other oracles have nothing to compare)
     #[serde(default)]
     pub dl_queue0: bool,
+    /// where the board's millisecond clock stands when the run starts: 0 = 1 s after power-up, 1 = a few seconds
+    /// before 2^31 ms (24.8 days of uptime), 2 = a few seconds before it wraps at 2^32 ms (49.7 days), 3 = one
+    /// minute before 2^31 ms
+    #[serde(default)]
+    pub clock_epoch: u8,
 }
 
 impl WorldCfg {
@@ -121,7 +126,18 @@ impl WorldCfg {
             lazy_app: false,
             restore_into_used: false,
             dl_queue0: false,
+            clock_epoch: 0,
         }
+    }
+}
+
+/// The millisecond clock value a run starts at (see `WorldCfg::clock_epoch`).
+pub fn clock_start_ms(epoch: u8) -> u64 {
+    match epoch {
+        1 => (1u64 << 31) - 2_500,
+        2 => (1u64 << 32) - 2_500,
+        3 => (1u64 << 31) - 60_000,
+        _ => 1000,
     }
 }
 
@@ -651,6 +667,9 @@ impl Shrinkable for MacCase {
             fields.push(c);
             let mut c = self.cfg.clone();
             c.dl_queue0 = false;
+            fields.push(c);
+            let mut c = self.cfg.clone();
+            c.clock_epoch = 0;
             fields.push(c);
             let mut c = self.cfg.clone();
             c.fcnt_up0 = 0;
